@@ -647,3 +647,47 @@ def _num_cases(tier):
 
 
 _rt_concrete("der.roundtrip_number", "ecdsa.der.read_number", _num_cases)
+
+
+# ---- canonical form of what read_number accepts: the octets consumed are exactly subid(number) -------------------------------
+# the converse bridge   for all j <= llen:  q128(number, j) == b128(string, llen - j)   again by induction written out as base + step;
+# the path that uses it takes the statement in quantified form (with the two recurrences quantified as well: they are the definitions
+# of the spec functions), because the octet index is the one the extensionality axiom of byte strings chooses.
+@lemma("der.read_number_canonical", props=["C11"])
+def _(ex):
+    s = ex.fresh_bytes("string")
+    which = ex.choose(3)
+    from pyvc.interp import FuncRef as _FuncRef, PyRaise as _PyRaise
+    try:
+        r = ex.call(_FuncRef("ecdsa.der.read_number"), [s], {}, 0)         # by contract
+    except _PyRaise:
+        return                                                            # rejected input: nothing to show
+    num, ll = r
+    q128_facts(ex, num, 0)
+    b128_facts(ex, s, ll - 1, ll)
+    if which == 0:
+        ex.oblige("lemma:der.read_number_canonical#induction-base", eq(q128(num, 0), b128(s, ll - 0)), "lemma")
+        return
+    if which == 1:
+        j = ex.fresh_int("j")
+        ex.assume(And_(0 <= j, j < ll, eq(q128(num, j), b128(s, ll - j))))
+        q128_facts(ex, num, j)
+        b128_facts(ex, s, ll - j - 1)
+        ex.oblige("lemma:der.read_number_canonical#induction-step", eq(q128(num, j + 1), b128(s, ll - (j + 1))), "lemma")
+        return
+    ex.assumptions.add("induction over the naturals applied to the discharged obligations lemma:der.read_number_canonical#induction-base / #induction-step")
+    j, k = _z3.Int("rnc!j"), _z3.Int("rnc!k")
+    tn, ts, tl = _T(num), _T(s), _T(ll)
+    ex.pc.append(_z3.ForAll([j], _z3.Implies(_z3.And(0 <= j, j <= tl), Q128(tn, j) == B128(ts, tl - j)), patterns=[Q128(tn, j)], qid="rnc_bridge"))
+    ex.pc.append(_z3.ForAll([k], _z3.Implies(k >= 1, B128(ts, k) == 128 * B128(ts, k - 1) + _sym.AT(ts, k - 1) % 128), patterns=[B128(ts, k)], qid="b128_rec"))
+    ex.pc.append(_z3.ForAll([k], _z3.Implies(k >= 1, Q128(tn, k) == Q128(tn, k - 1) / 128), patterns=[Q128(tn, k)], qid="q128_rec"))
+    ex.pc.append(B128(ts, 0) == 0)
+    # instances at the two ends (digit count): q128(num, ll) = b128(s, 0) = 0 and q128(num, ll - 1) = b128(s, 1) = s[0] mod 128
+    ex.pc.append(Q128(tn, tl) == B128(ts, 0))
+    ex.pc.append(Q128(tn, tl - 1) == B128(ts, 1))
+    ex.pc.append(B128(ts, 1) == 128 * B128(ts, 0) + _sym.AT(ts, 0) % 128)
+    ex.oblige("lemma:der.read_number_canonical#length", eq(S.subid_len(num), ll), "lemma")
+    ex.oblige("lemma:der.read_number_canonical#consumed-octets-are-subid-of-the-value", beq(slc(s, 0, ll), S.subid(num)), "lemma")
+
+
+_LEMMAS["der.read_number_canonical"].theories = {"b128"}
